@@ -222,9 +222,15 @@ void CommonLoop::onSignal()
                 //LogTrace("signo:%d", signo);
                 auto iter = all_signals_subscribers_.find(signo);
                 if (iter != all_signals_subscribers_.end()) {
-                    auto todo = iter->second;   //!FIXME:Crash if SignalSubscribuer be deleted in callback
+                    auto todo = iter->second;
                     for (auto s : todo) {
-                        s->onSignal(signo);
+                        //! 前面的回调中可能已将后面的SignalSubscribuer给disable或销毁了，所以要重新确认它是否还在订阅
+                        auto curr_iter = all_signals_subscribers_.find(signo);
+                        if (curr_iter == all_signals_subscribers_.end())
+                            break;
+
+                        if (curr_iter->second.find(s) != curr_iter->second.end())
+                            s->onSignal(signo);
                     }
                 }
             }
